@@ -25,7 +25,7 @@ ASSUMPTIONS = ['vf/oracles/rrule_ref.py is the definition of the recurrence set 
                'BYEASTER offsets that leave Easter\'s calendar year (outside -80..+249) have no documented meaning: only '
                '"no wrong instant, no non-ValueError" is checked for them']
 MANIFEST = {
-    'technique': 'runtime differential monitor: real rrule iteration under a sys.monitoring period probe vs an independent brute-force RFC 5545 enumerator',
+    'technique': 'runtime differential monitor: real rrule iteration under a sys.monitoring period probe vs an independent brute-force RFC 5545 enumerator; plus the same iterations of separate rule objects from four free-running threads with injected yields (sys.monitoring), compared with the single-threaded outcomes',
     'level_text': 'Thousands of seeded rules per run covering the BY-part product are executed by the real iterator and compared '
                   'item by item with a definitional enumerator; the period probe bounds every iteration in logical steps.  Two '
                   'mismatches are classified by mechanism against known_findings.json (K1, K2: both repaired, so any recurrence is a violation).  Exploration: held on the rules and horizons observed.',
